@@ -375,6 +375,7 @@ const postCancelLimit = 64
 
 func (w *world) endCancelDrain(bound int) {
 	before := map[*port]int{}
+	w.limitDrain.Store(true)
 	w.cancel()
 	for _, p := range w.ins {
 		p.abortOps("close")
